@@ -166,7 +166,7 @@ def check(ctx):
     sub6 = util.fresh_ctx(ctx, "C06")
     util.guarded(ctx, importlib.import_module("props.C06").check, sub6)
     for o in sub6.obs:
-        if o["rule"] == "R06.6" and "is-the-real-backlog" in o["key"]:
+        if (o["rule"] == "R06.6" and "is-the-real-backlog" in o["key"]) or (o["rule"] == "R06.1" and "flush-gets-the-caller-s-timeout" in o["key"]):
             ctx.ob("R20.8", o["key"], o["ok"], o["site"], o["detail"], o["nontrivial"])
     if not getattr(ctx, "deferred_infra", None): ctx.floor("R20.8", 2)
 
